@@ -42,6 +42,7 @@ pub fn c15_states(ctx: &Ctx, thorough: bool) -> Vec<(String, StateSpec)> {
         ("other-version+complete".into(), state(true, MetaSpec::OtherVersion, Complete)),
         ("other-version+foreign".into(), state(true, MetaSpec::OtherVersionOtherHash, Foreign)),
         ("other-version+other-schema".into(), state(true, MetaSpec::OtherVersionOtherHash, ForeignSchema)),
+        ("near-version+other-schema".into(), state(true, MetaSpec::NearVersion, ForeignSchema)),
         ("other-data+foreign".into(), state(true, MetaSpec::OtherHash, Foreign)),
         ("meta-missing+complete".into(), state(true, MetaSpec::Absent, Complete)),
         ("meta-missing+foreign".into(), state(true, MetaSpec::Absent, Foreign)),
@@ -52,6 +53,8 @@ pub fn c15_states(ctx: &Ctx, thorough: bool) -> Vec<(String, StateSpec)> {
     let len = ctx.reference.meta_text.len();
     if thorough {
         v.push(("other-data+complete".into(), state(true, MetaSpec::OtherHash, Complete)));
+        v.push(("near-version+foreign".into(), state(true, MetaSpec::NearVersion, Foreign)));
+        v.push(("near-version+complete".into(), state(true, MetaSpec::NearVersion, Complete)));
         for b in 0..len {
             v.push((format!("meta-torn({b})+foreign"), state(true, MetaSpec::CurrentPrefix { bytes: b }, Foreign)));
             v.push((format!("meta-torn({b})+complete"), state(true, MetaSpec::CurrentPrefix { bytes: b }, Complete)));
@@ -78,12 +81,21 @@ pub fn c15_states(ctx: &Ctx, thorough: bool) -> Vec<(String, StateSpec)> {
 /// The C15 session: open the on-disk database, build a fresh in-memory one in the same process,
 /// ask both the same phrases. Every build uses the canonical plan on one CPU.
 pub fn c15_session(ctx: &Ctx, faults: Vec<Fault>, subset: Option<Vec<usize>>) -> Session {
+    c15_session_ordered(ctx, faults, subset, false)
+}
+
+/// `mem_first`: the in-memory reference database is built before the on-disk one is opened (an
+/// in-memory session must not touch the data directory).
+pub fn c15_session_ordered(ctx: &Ctx, faults: Vec<Fault>, subset: Option<Vec<usize>>, mem_first: bool) -> Session {
+    let disk = Op::Open { slot: 0, mode: Mode::Disk, plan: Plan::default() };
+    let mem = Op::Open { slot: 1, mode: Mode::Mem, plan: Plan::default() };
+    let (a, b) = if mem_first { (mem, disk) } else { (disk, mem) };
     ctx.session(
         1,
         faults,
         vec![
-            Op::Open { slot: 0, mode: Mode::Disk, plan: Plan::default() },
-            Op::Open { slot: 1, mode: Mode::Mem, plan: Plan::default() },
+            a,
+            b,
             Op::Ask { slot: 0, phrases: vec![], file: Some(ctx.qprime_file.display().to_string()), subset: subset.clone(), detail: false },
             Op::Ask { slot: 1, phrases: vec![], file: Some(ctx.qprime_file.display().to_string()), subset, detail: false },
         ],
@@ -117,6 +129,7 @@ pub fn c15_cell(ctx: &Ctx, tag: &str, st: &StateSpec, faults: Vec<Fault>, subset
                 Fault::Kill { point, k } => format!("kill@{point}#{k}"),
                 Fault::Fail { point, k, interrupted } => format!("{}@{point}#{k}", if *interrupted { "eintr" } else { "fail" }),
                 Fault::ShortWrites { max } => format!("short-writes({max})"),
+                Fault::Syscall { call, when, errno } => format!("sys-{}@{call}#{when}", errno.clone().unwrap_or_else(|| "kill".into())),
             })
             .collect::<Vec<_>>()
             .join("+")
@@ -125,7 +138,7 @@ pub fn c15_cell(ctx: &Ctx, tag: &str, st: &StateSpec, faults: Vec<Fault>, subset
     if !faults.is_empty() {
         steps.push(Step::Start { session: c15_session(ctx, faults, subset.clone()) });
     }
-    steps.push(Step::Start { session: c15_session(ctx, vec![], subset.clone()) });
+    steps.push(Step::Start { session: c15_session_ordered(ctx, vec![], subset.clone(), seed % 2 == 1) });
     steps.push(Step::Start { session: c15_session(ctx, vec![], subset) });
     History { property: "C15".into(), seed, label, steps }
 }
@@ -265,9 +278,39 @@ pub fn c15_random(ctx: &Ctx, rng: &mut Rng, seed: u64, quick: bool) -> History {
             steps.push(Step::Start { session: c15_session(ctx, faults, subset.clone()) });
         }
     }
-    steps.push(Step::Start { session: c15_session(ctx, vec![], subset.clone()) });
+    let mem_first = rng.chance(1, 2);
+    steps.push(Step::Start { session: c15_session_ordered(ctx, vec![], subset.clone(), mem_first) });
     steps.push(Step::Start { session: c15_session(ctx, vec![], subset) });
     History { property: "C15".into(), seed, label, steps }
+}
+
+/// System calls swept by the ptrace injector: (call, highest `when` to try, errno for the error flavour).
+pub fn syscall_sites() -> Vec<(&'static str, usize, &'static str)> {
+    vec![
+        ("openat", 70, "EACCES"),
+        ("write", 90, "ENOSPC"),
+        ("fdatasync", 26, "EIO"),
+        ("fsync", 6, "EIO"),
+        ("renameat", 14, "EIO"),
+        ("rename", 4, "EIO"),
+        ("mkdir", 6, "ENOSPC"),
+        ("unlink", 24, "EIO"),
+        ("unlinkat", 24, "EIO"),
+        ("flock", 8, "EWOULDBLOCK"),
+        ("mmap", 70, "ENOMEM"),
+    ]
+}
+
+/// States from which the system-call sweep starts (each exercises a different recovery path).
+pub fn syscall_states(ctx: &Ctx) -> Vec<(String, StateSpec)> {
+    use IndexSpec::*;
+    let _ = ctx;
+    vec![
+        ("absent".into(), state(true, MetaSpec::Absent, Absent)),
+        ("other-data+foreign".into(), state(true, MetaSpec::OtherHash, Foreign)),
+        ("other-version+foreign".into(), state(true, MetaSpec::OtherVersionOtherHash, Foreign)),
+        ("index-missing+current".into(), state(true, MetaSpec::Current, Absent)),
+    ]
 }
 
 pub fn fault_label(f: &Fault) -> String {
@@ -275,6 +318,7 @@ pub fn fault_label(f: &Fault) -> String {
         Fault::Kill { point, k } => format!("kill@{point}#{k}"),
         Fault::Fail { point, k, interrupted } => format!("{}@{point}#{k}", if *interrupted { "eintr" } else { "fail" }),
         Fault::ShortWrites { max } => format!("short-writes({max})"),
+        Fault::Syscall { call, when, errno } => format!("sys-{}@{call}#{when}", errno.clone().unwrap_or_else(|| "kill".into())),
     }
 }
 
@@ -310,8 +354,25 @@ pub fn c14_random(ctx: &Ctx, rng: &mut Rng, seed: u64, quick: bool) -> History {
     let mut have_dir = false;
     for _ in 0..sessions {
         let cpus = cpus_choice(rng);
-        let kind = rng.below(if have_dir { 5 } else { 3 });
+        let kind = rng.below(if have_dir { 6 } else { 4 });
+        let kind = if !have_dir && kind == 3 { 5 } else { kind };
         match kind {
+            // an on-disk start that is killed or fails somewhere; what follows must still agree
+            5 => {
+                let faults = random_fault(ctx, rng);
+                label.push(format!("disk start with {}", faults.iter().map(fault_label).collect::<Vec<_>>().join("+")));
+                if rng.chance(1, 2) {
+                    steps.push(Step::Damage { d: random_damage(ctx, rng) });
+                }
+                steps.push(Step::Start { session: ctx.session(1, faults, vec![Op::Open { slot: 0, mode: Mode::Disk, plan: Plan::default() }, ask(0)]) });
+                have_dir = true;
+                if rng.chance(1, 2) {
+                    // an in-memory session in between must not change what the next on-disk session sees
+                    steps.push(Step::Start { session: ctx.session(cpus, vec![], vec![Op::Open { slot: 0, mode: Mode::Mem, plan: random_plan(rng) }, ask(0)]) });
+                    steps.push(Step::Start { session: ctx.session(cpus, vec![], vec![Op::Open { slot: 0, mode: Mode::Disk, plan: random_plan(rng) }, ask(0)]) });
+                    label.push("mem ; disk-reopen".into());
+                }
+            }
             // in-memory: 1..=3 successive builds with independent plans
             0 | 1 => {
                 let n = rng.range(1, 3);
@@ -362,7 +423,7 @@ pub fn c16_random(ctx: &Ctx, rng: &mut Rng, seed: u64, perms: Perms, class: usiz
     let own = |slot: usize| Op::OwnWords { slot, perms, only: None };
     let mut steps = Vec::new();
     let label;
-    match class % 6 {
+    match [0usize, 1, 2, 3, 3, 4, 5, 3][class % 8] {
         0 => {
             label = format!("fresh in-memory ({cpus} cpus)");
             steps.push(Step::Start { session: ctx.session(cpus, vec![], vec![Op::Open { slot: 0, mode: Mode::Mem, plan: random_plan(rng) }, own(0)]) });
@@ -378,11 +439,31 @@ pub fn c16_random(ctx: &Ctx, rng: &mut Rng, seed: u64, perms: Perms, class: usiz
             steps.push(Step::Start { session: ctx.session(cpus, vec![], vec![Op::Open { slot: 0, mode: Mode::Disk, plan: random_plan(rng) }, own(0)]) });
         }
         3 => {
-            let faults = random_fault(ctx, rng);
+            // mostly faults inside the build itself; if the database opens in spite of an injected
+            // failure it must be complete as well
+            let style = rng.below(10);
+            let faults = if style < 8 {
+                let inside: &[&str] = &["rebuild.asset_start", "rebuild.before_add", "rebuild.after_add"];
+                let around: &[&str] = &["rebuild.before_commit", "rebuild.cleared", "rebuild.committed", "rebuild.reloaded", "meta.write", "rebuild.writer_created"];
+                let point = if style < 6 { *rng.pick(inside) } else { *rng.pick(around) };
+                let k = match point {
+                    "rebuild.asset_start" => rng.below(ctx.shipped.assets.len().max(1)),
+                    "rebuild.before_add" | "rebuild.after_add" => rng.below(ctx.expected_docs.max(1)),
+                    "meta.write" => rng.below(17),
+                    _ => 0,
+                };
+                if rng.chance(2, 3) {
+                    vec![Fault::Fail { point: point.to_string(), k, interrupted: false }]
+                } else {
+                    vec![Fault::Kill { point: point.to_string(), k }]
+                }
+            } else {
+                random_fault(ctx, rng)
+            };
             label = format!("recovered after {} ({cpus} cpus)", faults.iter().map(fault_label).collect::<Vec<_>>().join("+"));
             let states = c15_states(ctx, false);
             steps.push(Step::Fabricate { state: rng.pick(&states).1.clone() });
-            steps.push(Step::Start { session: ctx.session(1, faults, vec![Op::Open { slot: 0, mode: Mode::Disk, plan: Plan::default() }]) });
+            steps.push(Step::Start { session: ctx.session(1, faults, vec![Op::Open { slot: 0, mode: Mode::Disk, plan: Plan::default() }, own(0)]) });
             steps.push(Step::Start { session: ctx.session(cpus, vec![], vec![Op::Open { slot: 0, mode: Mode::Disk, plan: random_plan(rng) }, own(0)]) });
         }
         4 => {
@@ -447,7 +528,7 @@ fn literal(rng: &mut Rng) -> String {
 
 pub fn c18_text(pool: &PhrasePool, rng: &mut Rng) -> String {
     let p = |rng: &mut Rng| phrase(pool, rng);
-    match rng.below(22) {
+    match rng.below(24) {
         0 | 1 => p(rng),
         2 => format!("{} * {}", p(rng), literal(rng)),
         3 => format!("{} * {}", literal(rng), p(rng)),
@@ -471,12 +552,37 @@ pub fn c18_text(pool: &PhrasePool, rng: &mut Rng) -> String {
         18 => format!("({})(1m + 1s)({})", p(rng), p(rng)),
         19 => format!("({} / 0)({} * {})", p(rng), p(rng), literal(rng)),
         20 => format!("{} + {}", p(rng), p(rng)),
+        22 | 23 => {
+            // a flat chain of 3..=6 phrases
+            let n = rng.range(3, 6);
+            let mut t = p(rng);
+            for _ in 1..n {
+                let op = *rng.pick(&["+", "-", "*", "/"]);
+                t = format!("{t} {op} {}", p(rng));
+            }
+            t
+        }
         _ => format!("({}) ({})", p(rng), p(rng)),
     }
 }
 
 pub fn c18_random(ctx: &Ctx, pool: &PhrasePool, rng: &mut Rng, seed: u64) -> History {
-    let n_texts = rng.range(2, 5);
+    // swarm: small scripts over the whole phrase pool, or large scripts over a small per-script
+    // pool (so that phrases looked up early come back after many other lookups)
+    let large = rng.chance(1, 3);
+    let n_texts = if large { rng.range(6, 10) } else { rng.range(2, 5) };
+    let local;
+    let pool = if large || rng.chance(1, 4) {
+        let k = rng.range(4, 14);
+        local = PhrasePool {
+            own: (0..k).map(|_| rng.pick(&pool.own).clone()).collect(),
+            ambiguous: (0..3).map(|_| if pool.ambiguous.is_empty() { rng.pick(&pool.own).clone() } else { rng.pick(&pool.ambiguous).clone() }).collect(),
+            missing: pool.missing.clone(),
+        };
+        &local
+    } else {
+        pool
+    };
     let mut queries: Vec<QuerySpec> = Vec::new();
     for _ in 0..n_texts {
         let text = c18_text(pool, rng);
@@ -518,16 +624,12 @@ pub fn c18_random(ctx: &Ctx, pool: &PhrasePool, rng: &mut Rng, seed: u64) -> His
             }
         }
     }
-    let (mode, label) = if rng.chance(1, 3) { (Mode::Disk, "disk") } else { (Mode::Mem, "mem") };
+    let (mode, label) = if rng.chance(3, 4) { (Mode::Disk, "disk") } else { (Mode::Mem, "mem") };
     let mut steps = Vec::new();
     if mode == Mode::Disk {
         steps.push(Step::Fabricate { state: state(true, MetaSpec::Current, IndexSpec::Complete) });
     }
-    let ops = vec![
-        Op::Open { slot: 0, mode, plan: Plan::default() },
-        Op::Open { slot: 1, mode, plan: Plan::default() },
-        Op::Interleave { slot: 0, queries, acts, iso_slot: 1 },
-    ];
+    let ops = vec![Op::Open { slot: 0, mode, plan: Plan::default() }, Op::Interleave { slot: 0, queries, acts, iso_slot: 1, iso_fresh: Some(mode) }];
     steps.push(Step::Start { session: ctx.session(1, vec![], ops) });
     History { property: "C18".into(), seed, label: format!("{n} queries on one {label} database"), steps }
 }
